@@ -13,7 +13,10 @@ def direct_blocks(content, chunks, bs):
     read = S._netascii_reader_function(fake_net.ChunkedStream(content, chunks))
     out = []
     for _ in range(2 * len(content) + 2):
-        d = read(bs)
+        try:
+            d = read(bs)
+        except Exception as ex:     # a reader that raises delivers what it delivered so far, then a marker block
+            return out + [b"<raised " + type(ex).__name__.encode() + b">"]
         out.append(bytes(d))
         if len(d) != bs:
             return out
@@ -83,7 +86,7 @@ class C08(Check):
             ch = [rng.randrange(1, 700) for _ in range(rng.randrange(0, 40))]
             yield {"content": content, "chunks": ch, "bs": rng.choice([512, 1428]), "via": "transfer"}
         # a transfer size must never be announced in netascii mode: every stream kind x option spellings
-        for kind in (("bytesio", 0), ("bytesio", 3), ("file", 0), ("file", 2), ("pipe",), ("noreg",)):
+        for kind in (("bytesio", 0), ("bytesio", 3), ("file", 0), ("file", 2), ("pipe",), ("noreg",), ("sized",)):
             for name in ("tsize", "TSIZE", "tSize"):
                 for val in ("0", "1", "00"):
                     for extra in ((), (("blksize", "16"),), (("timeout", "3"),)):
